@@ -77,7 +77,46 @@ def prepare():
     lock = os.path.join(X.REPO, 'Cargo.lock')
     if os.path.exists(lock) and not os.path.exists(os.path.join(KWORK, 'Cargo.lock')):
         shutil.copy(lock, os.path.join(KWORK, 'Cargo.lock'))
+    invalidate_if_sources_changed()
     return [n for _, n in names]
+
+
+REPO_CRATES = ('belt-ctr', 'cbc', 'cfb-mode', 'cfb8', 'ctr', 'cts', 'ige', 'ofb', 'pcbc')
+
+
+def repo_sources_hash():
+    import hashlib
+    h = hashlib.sha256()
+    for c in REPO_CRATES:
+        for root, dirs, files in sorted(os.walk(os.path.join(X.REPO, c))):
+            dirs[:] = sorted(d for d in dirs if d not in ('target', 'tests', 'benches'))
+            for f in sorted(files):
+                if f.endswith('.rs') or f == 'Cargo.toml':
+                    p = os.path.join(root, f)
+                    h.update(os.path.relpath(p, X.REPO).encode())
+                    h.update(open(p, 'rb').read())
+    return h.hexdigest()
+
+
+def invalidate_if_sources_changed():
+    """cargo decides freshness by mtime; a file restored with an OLDER mtime (checkout, rsync -a, patch -R)
+    would leave a stale build.  The build is therefore keyed by the CONTENT of the repo crates: when the
+    hash differs from the one of the last build, the fingerprints of the path dependencies are removed."""
+    hp = os.path.join(KWORK, '.repo_src_hash')
+    cur = repo_sources_hash()
+    old = open(hp).read() if os.path.exists(hp) else ''
+    if cur == old:
+        return False
+    names = tuple(c.replace('-', '_') + '-' for c in REPO_CRATES) + tuple(c + '-' for c in REPO_CRATES) + ('vkani-',)
+    for root, dirs, files in os.walk(KWORK):
+        if os.path.basename(root) == '.fingerprint':
+            for d in list(dirs):
+                if d.startswith(names):
+                    shutil.rmtree(os.path.join(root, d), ignore_errors=True)
+            dirs[:] = []
+    _native_built.clear()
+    open(hp, 'w').write(cur)
+    return True
 
 
 def _env():
